@@ -145,7 +145,7 @@ def run(rep, model, tier, seed, broken=()):
     nbad = 0
     ndoc = 0
     try:
-        cases = []
+        cases = [c for c in pipe.corpus_cases("C07") if not c["_name"].startswith("f")]
         for i in range(n):
             mod = gen.gen_module(rng, budget=rng.choice([4, 8, 16, 30]), max_depth=3,
                                  weights=dict(klass=3, dangling=0.1), doc_p=0.7)
@@ -228,6 +228,8 @@ def premise_ok(c):
                     yield from (x for x in a[1] if isinstance(x, str))
         if n.get("default"):
             yield n["default"]
+    if "ast" not in c:
+        return True
     for n in walk(c["ast"]["body"]):
         if any("\n" in a or "\r" in a for a in args_of(n)):
             return False
